@@ -45,7 +45,7 @@ def gen_protocol(rng, pnames: list[str]) -> list:  # noqa: ANN001
     steps = []
     for _ in range(rng.randint(1, 6)):
         # every step names the same parameters, each step in its own key order (the values belong to their names)
-        steps.append((dy(rng, 0.125, 2.0), {p: (rng.choice(vals) if rng.random() < 0.4 else dy(rng, 0.25, 2.5)) for p in rng.sample(pp, len(pp))}))
+        steps.append((dy(rng, 0.125, 2.0), {p: (0.0 if rng.random() < 0.12 else rng.choice(vals) if rng.random() < 0.4 else dy(rng, 0.25, 2.5)) for p in rng.sample(pp, len(pp))}))  # a step may switch something off: exactly 0
     return steps
 
 
